@@ -20,6 +20,7 @@ func init() {
 		EnumRule:    "obligations per rule and construct",
 		Assumptions: []string{"callers honour the returned region; IdentityMapRegion performs the same unchecked round-up but maps without a reservation, which C07 does not cover (reported as a note)"},
 		Controls: []Control{
+			{Name: "page count kept in 32 bits", File: "kernel/mm/vmm/map.go", Old: "\tpageCount := size >> mm.PageShift\n\tfor page := mm.PageFromAddress(startPage); pageCount > 0;", New: "\tpageCount := uint32(size >> mm.PageShift)\n\tfor page := mm.PageFromAddress(startPage); pageCount > 0;", Expect: "C07.R3"},
 			{Name: "page count from size-1 (wraps for size 0)", File: "kernel/mm/vmm/map.go", Old: "\tpageCount := size >> mm.PageShift\n\tfor page := mm.PageFromAddress(startPage)", New: "\tpageCount := ((size - 1) >> mm.PageShift) + 1\n\tfor page := mm.PageFromAddress(startPage)", Expect: "C07.R3"},
 			{Name: "drop the > cursor test", File: "kernel/mm/vmm/addr_space.go", Old: "\tif roundedSize > earlyReserveLastUsed {\n\t\treturn 0, errEarlyReserveNoSpace\n\t}\n", New: "", Expect: "C07.R1"},
 			{Name: "subtract the unrounded size", File: "kernel/mm/vmm/addr_space.go", Old: "\tearlyReserveLastUsed -= roundedSize\n", New: "\tearlyReserveLastUsed -= size\n", Expect: "C07.R1"},
